@@ -88,6 +88,10 @@ pub fn instantiate_matrix(opts: &Opts, st: &mut Stats, thorough: bool) -> Vec<Hi
         ("approvers", json!([])),
         ("executors", json!(["EXEC"])),
         ("approvers", json!(["ok1", "x"])),
+        ("executors", json!(["exec1", "appr1"])),
+        ("approvers", json!(["appr1", "appr1", "exec1"])),
+        ("supported_quote_denoms", json!(["q0", "q0", "q1"])),
+        ("convertible_base_denoms", json!(["conv0", "base", "conv0"])),
     ];
     let mut precs: Vec<u128> = if thorough { (0..=20).collect() } else { vec![0, 1, 2, 6, 17, 18, 19, 20] };
     // integer-narrowing classes: values whose low 8 / 16 / 32 / 64 bits look like a legal precision
@@ -212,11 +216,14 @@ pub fn modify_matrix(opts: &Opts, st: &mut Stats, thorough: bool) -> Vec<History
                 [json!(["appr1", "carol", "dave"]), json!(["exec1", "dave"]), json!("0.010"), json!("feeb"), json!("0.02"), json!("feea"), json!(["kyc"]), json!(["acc"])],
                 [json!(["carol"]), json!(["dave"]), json!("0.5"), json!("feea"), json!("0.5"), json!("feeb"), json!([]), json!([])],
                 [json!([]), json!([]), json!(""), json!(""), json!(""), json!(""), json!(["a", "b"]), json!(["c"])],
+                // cross combinations: one list empty while the other is supplied non-empty; duplicated entries
+                [json!([]), json!(["exec1", "dave"]), json!("0.01"), json!("feeb"), json!("0.020"), json!("feeb"), json!([]), json!([])],
+                [json!(["appr1", "appr1", "carol", "carol"]), json!([]), json!("0.01"), json!(""), json!(""), json!("feea"), json!(["kyc", "kyc"]), json!(["acc"])],
             ];
             let names = ["approvers", "executors", "ask_fee_rate", "ask_fee_account", "bid_fee_rate", "bid_fee_account", "ask_required_attributes", "bid_required_attributes"];
             for mask in 0u32..256 {
                 for (fi, f) in forms.iter().enumerate() {
-                    if !thorough && fi == 2 && mask % 4 != 0 {
+                    if !thorough && fi >= 2 && mask % 4 == 1 {
                         continue;
                     }
                     let mut m = serde_json::Map::new();
